@@ -98,9 +98,12 @@ TimeOf(i) == 1000 + 10 * i
 TimePos(S, t) == Cardinality({p \in 1..Len(S) : TimeOf(S[p]) < t})
 
 Bits(S) == [i \in 1..N |-> IF (i - 1) \in S THEN 1 ELSE 0]
-Searches == <<<<0, 1>>, <<0, 2>>, <<1, 1>>, <<1, 3>>>>
+\* incl. saturating cases: a page size beyond any stream length is an unbounded page, a start position / index / time beyond
+\* the end finds nothing more (empty page, no such message, stream length)
+Huge == 100000000
+Searches == <<<<0, 1>>, <<0, 2>>, <<1, 1>>, <<1, 3>>, <<0, Huge>>, <<Huge, 2>>, <<N, 1>>>>
 Lookups == [k \in 1..(N + 1) |-> <<"index", k - 1>>] \o [k \in 1..(N + 1) |-> <<"time", TimeOf(k - 1) - 5>>]
-           \o <<<<"time", TimeOf(1)>>>>
+           \o <<<<"time", TimeOf(1)>>, <<"index", 20 * Huge>>, <<"time", 20 * Huge>>, <<"time", 0>>>>
 
 -----------------------------------------------------------------------------
 (* ---- filter sets (src/filter, match_filters in src/utils/remote_utils.rs).  A filter has a kind (pos / neg / event /
